@@ -47,7 +47,7 @@ def apply_script(base, script, typool):
             d["structures"].append({"name": e["name"], "properties": []})
             a.update(touch=e["name"], list="structures")
             touched.add(e["name"])
-        elif k == "AddProperty":
+        elif k in ("AddProperty", "OverrideProperty"):
             pname = e["name"] if e["name"] != "@self" else e["target"][0].lower() + e["target"][1:]
             p = {"name": pname, "type": copy.deepcopy(typool[e["ty"]])}
             if e["optional"]:
@@ -391,6 +391,13 @@ def check(tier):
         [{"k": "AddStructure", "name": NEW_S}, {"k": "AddExtends", "target": NEW_S, "parent": "HoverRegistrationOptions"},
          {"k": "AddStructure", "name": NEW_S + "2"}, {"k": "AddExtends", "target": NEW_S + "2", "parent": NEW_S},
          {"k": "AddProperty", "target": NEW_S + "2", "name": "verifProp", "ty": "string", "optional": False}],
+        # an inherited property re-declared with the other integer type in the middle of a chain of three (nearest wins), and a
+        # null-admitting one re-declared as plain optional
+        [{"k": "AddStructure", "name": NEW_S}, {"k": "AddExtends", "target": NEW_S, "parent": "VersionedTextDocumentIdentifier"},
+         {"k": "OverrideProperty", "target": NEW_S, "name": "version", "ty": "uinteger", "optional": False},
+         {"k": "AddStructure", "name": NEW_S + "2"}, {"k": "AddExtends", "target": NEW_S + "2", "parent": NEW_S}],
+        [{"k": "AddStructure", "name": NEW_S}, {"k": "AddExtends", "target": NEW_S, "parent": "SignatureHelp"},
+         {"k": "OverrideProperty", "target": NEW_S, "name": "activeParameter", "ty": "uinteger", "optional": True}],
         # two anonymous literals of one shape that differ only in a mark of an inner property
         [{"k": "AddProperty", "target": "Color", "name": "verifProp", "ty": "literalProposed", "optional": True},
          {"k": "AddProperty", "target": "Color", "name": "global", "ty": "literal", "optional": True}],
